@@ -219,11 +219,26 @@ func builderInvariant(sch ast.Schemas, b *ast.Builder) []viol {
 					loc := fmt.Sprintf("builder %s.%s (for %s) %s assignment #%d path %s", b.Package, b.Name, b.For.Name, where, ai, pathString(a.Path))
 					out = append(out, viol{Clause: clause, Desc: desc, What: loc + ": " + what})
 				}
-				if c, l, _ := walkPath(sch, b.For.Type, a.Path); c != "" {
-					add(c, c+"|"+l, c+" ("+l+")")
+				clause, l, reached := walkPath(sch, b.For.Type, a.Path)
+				if clause != "" {
+					add(clause, clause+"|"+l, clause+" ("+l+")")
 				}
 				if a.Value.Envelope != nil {
 					checkEnvelope(sch, a.Value.Envelope, add)
+					// "matching types": an envelope builds the value that is
+					// stored, so it is typed like the place the path names (its
+					// element when the assignment appends to a list).
+					if clause == "" {
+						stored := reached
+						if a.Method == ast.AppendAssignment {
+							if coll, ok := resolve(sch, reached); ok && coll.Kind == ast.KindArray && coll.Array != nil {
+								stored = coll.Array.ValueType
+							}
+						}
+						if !argTypeEq(stored, a.Value.Envelope.Type) {
+							add("envelope type differs from the type of what the assignment stores", "envelope-type", fmt.Sprintf("envelope of type %s for a %s assignment into %s", typeLabel(a.Value.Envelope.Type), a.Method, typeLabel(reached)))
+						}
+					}
 				}
 				for _, u := range usedArgs(*a) {
 					named := false
@@ -541,6 +556,7 @@ func sharedSummary(shared []string) string {
 type ctx struct {
 	seed  *Seed
 	rule  *Rule
+	prev  *Rule // the rule applied just before (nil at depth 1)
 	out   []viol
 	stats *transStats
 }
@@ -565,6 +581,9 @@ func bID(b *ast.Builder) string {
 func checkTransition(seed *Seed, rule *Rule, pre, post *State) ([]viol, transStats) {
 	st := transStats{}
 	c := &ctx{seed: seed, rule: rule, stats: &st}
+	if n := len(pre.Seq); n > 0 {
+		c.prev = pre.Seq[n-1]
+	}
 	if rule.B {
 		c.builderRule(pre, post)
 	} else {
@@ -724,6 +743,9 @@ func (c *ctx) builderRule(preS, postS *State) {
 			if d := fieldDiff(*s, *g, may...); len(d) > 0 {
 				c.fail(name+": changes other parts of the selected builder ("+strings.Join(d, ",")+")", fmt.Sprintf("%s: %v", bID(s), refl.Diff(*s, *g, 3)))
 			}
+			if r.Kind == "merge_into" {
+				c.mergeContract(pre, s, g)
+			}
 			// "options not selected by a rule are unchanged": a builder rule selects no option
 			if !canonPrefix(s.Options, g.Options) {
 				c.fail("frame: existing option of the selected builder changed by "+name, fmt.Sprintf("%s: %v", bID(s), refl.Diff(s.Options, g.Options[:min(len(g.Options), len(s.Options))], 3)))
@@ -749,6 +771,76 @@ func (c *ctx) builderRule(preS, postS *State) {
 			continue
 		}
 		c.fail(name+": unexpected builder in the result", fmt.Sprintf("builder %s is neither an unselected builder nor a result of the rule", bID(g)))
+	}
+}
+
+// mergeContract: `source` names a BUILDER of the destination's package. When
+// a builder of exactly that name exists, each of its options that is not
+// excluded re-appears in the destination (renamed per rename_options),
+// assigning under_path + its own path. When no builder has that name (in any
+// letter case), nothing may be merged.
+func (c *ctx) mergeContract(pre []ast.Builder, s, g *ast.Builder) {
+	r := c.rule
+	var src *ast.Builder
+	anyCase, exact := false, 0
+	for i := range pre {
+		if pre[i].For.SelfRef.ReferredPkg != s.For.SelfRef.ReferredPkg {
+			continue
+		}
+		if pre[i].Name == r.Source {
+			exact++
+			if src == nil {
+				src = &pre[i]
+			}
+		}
+		if strings.EqualFold(pre[i].Name, r.Source) {
+			anyCase = true
+		}
+	}
+	if exact > 1 {
+		return // lenient: which of several homonymous builders is meant is not documented
+	}
+	if c.prev != nil && c.prev.B && (c.prev.Kind == "compose" || (c.prev.Kind == "duplicate" && len(c.prev.Exclude) > 0 && strings.EqualFold(c.prev.As, r.Source))) {
+		// lenient: a builder without options is only dismissed at the end of a
+		// rewriter phase; the previous rule may have left one under that name
+		// which the previous state does not show
+		return
+	}
+	added := g.Options[min(len(s.Options), len(g.Options)):]
+	if src == nil {
+		if !anyCase && len(added) > 0 {
+			c.fail("b.merge_into: options are merged although no builder has the source name", fmt.Sprintf("%s: %d options added, source %q", bID(s), len(added), r.Source))
+		}
+		return
+	}
+	var want []ast.Option
+	for _, o := range src.Options {
+		skip := false
+		for _, ex := range r.Exclude {
+			if ex == o.Name {
+				skip = true
+			}
+		}
+		if !skip {
+			want = append(want, o)
+		}
+	}
+	if len(added) != len(want) {
+		c.fail("b.merge_into: the options of the source builder are not merged into the destination", fmt.Sprintf("%s: source builder %s has %d options to merge, %d were added", bID(s), bID(src), len(want), len(added)))
+		return
+	}
+	for k := range want {
+		name := want[k].Name
+		if n, ok := r.RenameTo[name]; ok {
+			name = n
+		}
+		ok := added[k].Name == name && len(added[k].Assignments) == len(want[k].Assignments)
+		for ai := 0; ok && ai < len(want[k].Assignments); ai++ {
+			ok = pathString(added[k].Assignments[ai].Path) == r.Under+"."+pathString(want[k].Assignments[ai].Path)
+		}
+		if !ok {
+			c.fail("b.merge_into: a merged option does not assign under_path + the path of the source option", fmt.Sprintf("%s: option %s of %s became %s", bID(s), want[k].Name, bID(src), added[k].Name))
+		}
 	}
 }
 
